@@ -5,4 +5,4 @@ echo "== unchanged tree"; ./bin/npverif check -all | grep -v "^C[0-9]* quick" | 
 echo "== variants (not detected / false alarms)"; ./bin/npverif variants 2>&1 | grep -v " detected \| silent(benign) " | cut -c1-200
 echo "== seeds"; python3 tools/seed_verify.py --recheck --jobs 10 2>&1 | tail -4
 echo "== benign"; python3 tools/benign_verify.py --recheck --jobs 10 2>&1 | tail -40
-if [ "${1:-}" = "sweeps" ]; then for k in noop-first noop-last noop-each noop-before-return rename-locals rename-members guard-invert else-flatten ifinit-split switch-to-if ret-local arg-local cond-local return-swap if-to-switch; do echo "== sweep $k"; ./bin/npverif sweep $k 2>&1 | tail -3; done; fi
+if [ "${1:-}" = "sweeps" ]; then for k in noop-first noop-last noop-each noop-before-return rename-locals rename-members guard-invert else-flatten ifinit-split switch-to-if ret-local arg-local cond-local return-swap if-to-switch lit-split; do echo "== sweep $k"; ./bin/npverif sweep $k 2>&1 | tail -3; done; fi
